@@ -82,9 +82,10 @@ theorem prepareGen_remaining {t : T} {id : Id} {q : List Id} {done : Nat} {pendi
 theorem finishGen_hist {t1 t' : T} {id : Id} {lc : LevelCfg} {q : List Id} {done : Nat}
     {pending : List Gen} {gen : Gen} {g : GenEnv} {lscEnv : Option Bool}
     (h : finishGen t1 id lc q done pending gen g lscEnv = .ok t') :
-    ∃ f, t'.demes = updFirst id f t1.demes ∧ (∀ d, (f d).id = d.id) ∧
-      (((∀ d, (f d).hist = d.hist) ∧ remaining t' = id :: q) ∨
-       ((∀ d, (f d).hist = d.hist ++ [pending ++ [gen]]) ∧ remaining t' = q)) := by
+    ∃ f, t'.demes = updFirst id f t1.demes ∧ (∀ d, (f d).id = d.id) ∧ (∀ d, (f d).level = d.level) ∧
+      (t'.cfg = t1.cfg ∧ t'.log = t1.log) ∧
+      (((∀ d, (f d).hist = d.hist) ∧ t'.pc = .running q (some (id, done + 1, pending ++ [gen]))) ∨
+       ((∀ d, (f d).hist = d.hist ++ [pending ++ [gen]]) ∧ t'.pc = finish q)) := by
   unfold finishGen at h
   split at h
   · simp only [] at h
@@ -101,10 +102,9 @@ theorem finishGen_hist {t1 t' : T} {id : Id} {lc : LevelCfg} {q : List Id} {done
           subst h
           refine ⟨(fun d => { d with active := d.active && !(gv || lv) }) ∘
               (fun d => { d with hist := d.hist ++ [pending ++ [gen]], active := d.active && true }), ?_, fun _ => rfl,
-              Or.inr ⟨fun _ => rfl, ?_⟩⟩
-          · simp only [T.update, appendHist]
-            exact updFirst_comp _ _ _ _ (fun _ => rfl)
-          · exact remaining_finish _ q rfl
+              fun _ => rfl, ⟨rfl, rfl⟩, Or.inr ⟨fun _ => rfl, rfl⟩⟩
+          simp only [T.update, appendHist]
+          exact updFirst_comp _ _ _ _ (fun _ => rfl)
   · split at h
     · simp at h
     · rename_i gv hgv
@@ -112,11 +112,11 @@ theorem finishGen_hist {t1 t' : T} {id : Id} {lc : LevelCfg} {q : List Id} {done
       split at h
       · simp only [Except.ok.injEq] at h
         subst h
-        exact ⟨_, rfl, fun _ => rfl, Or.inr ⟨fun _ => rfl, remaining_finish _ q rfl⟩⟩
+        exact ⟨_, rfl, fun _ => rfl, fun _ => rfl, ⟨rfl, rfl⟩, Or.inr ⟨fun _ => rfl, rfl⟩⟩
       · split at h
         · simp only [Except.ok.injEq] at h
           subst h
-          exact ⟨bump 0, by simp [updFirst_bump_zero], fun _ => rfl, Or.inl ⟨fun _ => rfl, rfl⟩⟩
+          exact ⟨bump 0, by simp [updFirst_bump_zero], fun _ => rfl, fun _ => rfl, ⟨rfl, rfl⟩, Or.inl ⟨fun _ => rfl, rfl⟩⟩
         · split at h
           · simp at h
           · rename_i d2 hd2
@@ -127,10 +127,9 @@ theorem finishGen_hist {t1 t' : T} {id : Id} {lc : LevelCfg} {q : List Id} {done
               subst h
               refine ⟨(fun d => { d with active := d.active && !lv }) ∘
                   (fun d => { d with hist := d.hist ++ [pending ++ [gen]], active := d.active && true }), ?_, fun _ => rfl,
-                  Or.inr ⟨fun _ => rfl, ?_⟩⟩
-              · simp only [T.update, appendHist]
-                exact updFirst_comp _ _ _ _ (fun _ => rfl)
-              · exact remaining_finish _ q rfl
+                  fun _ => rfl, ⟨rfl, rfl⟩, Or.inr ⟨fun _ => rfl, rfl⟩⟩
+              simp only [T.update, appendHist]
+              exact updFirst_comp _ _ _ _ (fun _ => rfl)
 
 /-- a generation either leaves all histories alone and the schedule unchanged, or appends
 exactly one metaepoch to the running deme and removes it from the schedule -/
@@ -150,12 +149,12 @@ theorem stepGen_advance {t t' : T} {id : Id} {g : GenEnv} {l : Option Bool}
       split at h
       · simp at h
       · have e := evalReqs_effect hev
-        obtain ⟨f, hd, hfid, hcase⟩ := finishGen_hist h
+        obtain ⟨f, hd, hfid, _, _, hcase⟩ := finishGen_hist h
         refine ⟨f ∘ bump _, q, by rw [hd, e.demes, updFirst_comp id f (bump _) t.demes (fun _ => rfl)],
           prepareGen_remaining hprep, fun d => by simp [hfid, bump], ?_⟩
         rcases hcase with ⟨hh, hr⟩ | ⟨hh, hr⟩
-        · exact Or.inl ⟨fun d => by simp [hh, bump], hr⟩
-        · exact Or.inr ⟨fun d => by simp [hh, bump], hr⟩
+        · exact Or.inl ⟨fun d => by simp [hh, bump], by simp [remaining, hr]⟩
+        · exact Or.inr ⟨fun d => by simp [hh, bump], remaining_finish _ q hr⟩
 
 theorem stepLocal_advance {t t' : T} {id : Id} {reqs : List Req} {its : List Ind} {nfev : Nat}
     (h : stepLocal t id reqs its nfev = .ok t') :
@@ -195,7 +194,8 @@ theorem stepLocal_advance {t t' : T} {id : Id} {reqs : List Req} {its : List Ind
 theorem updFirst_hist (id : Id) (f : Deme → Deme) (k : Nat) (hf : ∀ d, (f d).hist.length = d.hist.length + k)
     (hid : ∀ d, (f d).id = d.id) :
     ∀ (ds : List Deme), (ds.map (·.id)).Nodup →
-      List.Forall₂ (fun d d' => d'.id = d.id ∧ d'.hist.length = d.hist.length + (if d.id = id then k else 0))
+      List.Forall₂ (fun d d' => d'.id = d.id ∧ d'.hist.length = d.hist.length + (if d.id = id then k else 0) ∧
+          (d.id ≠ id → d' = d))
         ds (updFirst id f ds) := by
   intro ds
   induction ds with
@@ -206,7 +206,7 @@ theorem updFirst_hist (id : Id) (f : Deme → Deme) (k : Nat) (hf : ∀ d, (f d)
     simp only [updFirst]
     by_cases ha : a.id = id
     · simp only [ha, beq_self_eq_true, ↓reduceIte]
-      refine List.Forall₂.cons ⟨by rw [hid, ha], by rw [hf]; simp [ha]⟩ ?_
+      refine List.Forall₂.cons ⟨by rw [hid, ha], by rw [hf]; simp [ha], fun hne => absurd ha hne⟩ ?_
       -- no later deme has this id
       have : ∀ d ∈ l, d.id ≠ id := by
         intro d hd he
@@ -215,28 +215,34 @@ theorem updFirst_hist (id : Id) (f : Deme → Deme) (k : Nat) (hf : ∀ d, (f d)
       induction l with
       | nil => exact List.Forall₂.nil
       | cons b l ihl =>
-        refine List.Forall₂.cons ⟨rfl, ?_⟩ (ihl (fun d hd => this d (List.mem_cons_of_mem _ hd)))
+        refine List.Forall₂.cons ⟨rfl, ?_, fun _ => rfl⟩ (ihl (fun d hd => this d (List.mem_cons_of_mem _ hd)))
         simp [this b (by simp)]
     · have hb : (a.id == id) = false := by simpa using ha
       simp only [hb, Bool.false_eq_true, ↓reduceIte]
-      exact List.Forall₂.cons ⟨rfl, by simp [ha]⟩ (ih hnd.2)
+      exact List.Forall₂.cons ⟨rfl, by simp [ha], fun _ => rfl⟩ (ih hnd.2)
 
 /-- counting relation between a state inside `run_metaepoch` and the state at its end -/
 def Advanced (rem : List Id) (d d' : Deme) : Prop :=
-  d'.id = d.id ∧ d'.hist.length = d.hist.length + (if d.id ∈ rem then 1 else 0)
+  d'.id = d.id ∧ d'.hist.length = d.hist.length + (if d.id ∈ rem then 1 else 0) ∧ (d.id ∉ rem → d' = d)
 
 theorem forall2_advanced_trans {rem : List Id} {id : Id} {k : Nat} {as bs cs : List Deme}
-    (h1 : List.Forall₂ (fun d d' => d'.id = d.id ∧ d'.hist.length = d.hist.length + (if d.id = id then k else 0)) as bs)
+    (h1 : List.Forall₂ (fun d d' => d'.id = d.id ∧ d'.hist.length = d.hist.length + (if d.id = id then k else 0) ∧
+      (d.id ≠ id → d' = d)) as bs)
     (h2 : List.Forall₂ (Advanced rem) bs cs) :
     List.Forall₂ (fun d d' => d'.id = d.id ∧
-      d'.hist.length = d.hist.length + (if d.id = id then k else 0) + (if d.id ∈ rem then 1 else 0)) as cs := by
+      d'.hist.length = d.hist.length + (if d.id = id then k else 0) + (if d.id ∈ rem then 1 else 0) ∧
+      (d.id ≠ id → d.id ∉ rem → d' = d)) as cs := by
   induction h1 generalizing cs with
   | nil => cases h2; exact List.Forall₂.nil
   | cons hab _ ih =>
     cases h2 with
     | cons hbc htl =>
-      refine List.Forall₂.cons ⟨hbc.1.trans hab.1, ?_⟩ (ih htl)
-      rw [hbc.2, hab.2, hab.1]
+      refine List.Forall₂.cons ⟨hbc.1.trans hab.1, ?_, ?_⟩ (ih htl)
+      · rw [hbc.2.1, hab.2.1, hab.1]
+      · intro hne hnr
+        have e1 := hab.2.2 hne
+        have e2 := hbc.2.2 (by rw [e1]; exact hnr)
+        rw [e2, e1]
 
 /-- **the run phase**: from any state inside `run_metaepoch` whose pending schedule has no
 repeated id, any accepted sequence of generation / local-search events that reaches the end
@@ -256,7 +262,7 @@ theorem run_phase : ∀ (evs : List Ev) (t t' : T), (t.demes.map (·.id)).Nodup 
       intro ds
       induction ds with
       | nil => exact List.Forall₂.nil
-      | cons a l ih => exact List.Forall₂.cons ⟨rfl, by simp⟩ ih
+      | cons a l ih => exact List.Forall₂.cons ⟨rfl, by simp, fun _ => rfl⟩ ih
     exact this _
   | cons ev evs ih =>
     intro t t' hnd hrem hrun h hpost
@@ -292,15 +298,22 @@ theorem run_phase : ∀ (evs : List Ev) (t t' : T), (t.demes.map (·.id)).Nodup 
       · rw [e]; exact (List.nodup_cons.mp hrem).2
     have h2 := ih t1 t' (by rw [hids]; exact hnd) hrem1 hrun' h hpost
     have h3 := forall2_advanced_trans h1 h2
-    refine forall2_imp (fun d d' hdd => ⟨hdd.1, ?_⟩) h3
-    rw [hdd.2, hr]
-    rcases hcase with ⟨rfl, e⟩ | ⟨rfl, e⟩
-    · rw [e]; simp
-    · rw [e]
-      have hnq : id ∉ q := (List.nodup_cons.mp hrem).1
-      by_cases hdi : d.id = id
-      · simp [hdi, hnq]
-      · simp [hdi]
+    refine forall2_imp (fun d d' hdd => ⟨hdd.1, ?_, ?_⟩) h3
+    · rw [hdd.2.1, hr]
+      rcases hcase with ⟨rfl, e⟩ | ⟨rfl, e⟩
+      · rw [e]; simp
+      · rw [e]
+        have hnq : id ∉ q := (List.nodup_cons.mp hrem).1
+        by_cases hdi : d.id = id
+        · simp [hdi, hnq]
+        · simp [hdi]
+    · intro hnr
+      rw [hr] at hnr
+      simp only [List.mem_cons, not_or] at hnr
+      apply hdd.2.2 hnr.1
+      rcases hcase with ⟨_, e⟩ | ⟨_, e⟩
+      · rw [e]; simp [hnr.1, hnr.2]
+      · rw [e]; exact hnr.2
 
 /-- the schedule of a well-formed tree has no repeated id -/
 theorem schedule_nodup {t : T} (hnd : (t.demes.map (·.id)).Nodup) : (schedule t).Nodup := by
@@ -358,7 +371,8 @@ theorem C06_one_metaepoch {t t1 t2 : T} {ge : Option Bool} {evs : List Ev}
     (hrun : ∀ e ∈ evs, isRun e = true) (hexec : exec t1 evs = .ok t2) (hpost : t2.pc = .post) :
     t1.metaepoch = t.metaepoch + 1 ∧
     List.Forall₂ (fun d d' => d'.id = d.id ∧ d'.hist.length = d.hist.length +
-      (if (decide (d.level < t.height) && d.active && !(t.cfg.hibernation && d.hib)) = true then 1 else 0))
+      (if (decide (d.level < t.height) && d.active && !(t.cfg.hibernation && d.hib)) = true then 1 else 0) ∧
+      ((decide (d.level < t.height) && d.active && !(t.cfg.hibernation && d.hib)) = false → d' = d))
       t.demes t2.demes := by
   have facts : t1.metaepoch = t.metaepoch + 1 ∧ t1.demes = t.demes ∧ t1.pc = finish (schedule t) := by
     simp only [step, stepLoop] at hloop
@@ -381,13 +395,18 @@ theorem C06_one_metaepoch {t t1 t2 : T} {ge : Option Bool} {evs : List Ev}
   rw [hrem, hd1] at hph
   refine forall2_imp_mem hph ?_
   intro d hd d' hdd
-  refine ⟨hdd.1, ?_⟩
-  rw [hdd.2]
-  by_cases hm : d.id ∈ schedule t
-  · simp only [hm, ↓reduceIte, (mem_schedule hnd hd).mp hm]
-  · have : ¬ (decide (d.level < t.height) && d.active && !(t.cfg.hibernation && d.hib)) = true :=
-      fun h => hm ((mem_schedule hnd hd).mpr h)
-    simp only [hm, ↓reduceIte, this, Bool.false_eq_true]
+  refine ⟨hdd.1, ?_, ?_⟩
+  · rw [hdd.2.1]
+    by_cases hm : d.id ∈ schedule t
+    · simp only [hm, ↓reduceIte, (mem_schedule hnd hd).mp hm]
+    · have : ¬ (decide (d.level < t.height) && d.active && !(t.cfg.hibernation && d.hib)) = true :=
+        fun h => hm ((mem_schedule hnd hd).mpr h)
+      simp only [hm, ↓reduceIte, this, Bool.false_eq_true]
+  · intro hc
+    apply hdd.2.2
+    intro hm
+    rw [(mem_schedule hnd hd).mp hm] at hc
+    exact absurd hc (by simp)
 
 end C06
 
@@ -401,7 +420,8 @@ theorem C06_one_metaepoch_reachable {cfg : Cfg} {stks : List (List Problem.Wrapp
     (hrun : ∀ e ∈ evs, isRun e = true) (hexec : exec t1 evs = .ok t2) (hpost : t2.pc = .post) :
     t1.metaepoch = t.metaepoch + 1 ∧
     List.Forall₂ (fun d d' => d'.id = d.id ∧ d'.hist.length = d.hist.length +
-      (if (decide (d.level < t.height) && d.active && !(t.cfg.hibernation && d.hib)) = true then 1 else 0))
+      (if (decide (d.level < t.height) && d.active && !(t.cfg.hibernation && d.hib)) = true then 1 else 0) ∧
+      ((decide (d.level < t.height) && d.active && !(t.cfg.hibernation && d.hib)) = false → d' = d))
       t.demes t2.demes :=
   C06_one_metaepoch (C07.C07_wf hi hpre).nodup hloop hgo hrun hexec hpost
 end C06
